@@ -154,6 +154,7 @@ def _viol(res, rec, what, selftest=False):
 
 
 def run_instance(p):
+    st.core.FLOOR_LEMMAS = True
     res = InstanceResult(p['id'])
     {'pit': _run_pit, 'maskers': _run_maskers, 'sn': _run_sn, 'mps': _run_mps, 'odimo': _run_odimo}[p['what']](res, p, p.get('selftest', False))
     return res
